@@ -75,12 +75,18 @@ pub struct Edge {
     pub debug: bool,
     pub name: String,
     pub line: usize,
+    /// column of the method / last path segment identifier: (line, col) identifies the call expression
+    pub col: usize,
 }
 
 #[derive(Default)]
 pub struct BodyFacts {
     pub sites: Vec<Site>,
     pub edges: Vec<Edge>,
+    /// method calls whose receiver type could not be established and whose name is not on the by-name
+    /// allow-list: every crate method of that name is a *possible* target.  Only used to over-approximate
+    /// the callers of a helper (`roles.rs`); never followed by the gate / funnel reachability.
+    pub loose_edges: Vec<Edge>,
     /// contains a (non-debug) call `Box::from_raw(..)`
     pub has_box_from_raw: bool,
     /// contains `mem::forget(..)` or `ManuallyDrop::new(..)`
@@ -137,8 +143,23 @@ pub fn tokens_mention_ident(ts: TokenStream, name: &str) -> bool {
     false
 }
 
+static COUNT_ACCESSORS: std::sync::OnceLock<BTreeSet<String>> = std::sync::OnceLock::new();
+
+/// names of crate functions that return (a reference to) the count; set once after pass 1
+pub fn set_count_accessors(names: BTreeSet<String>) {
+    let _ = COUNT_ACCESSORS.set(names);
+}
+
+/// the expression mentions the identifier `count`, or calls a count accessor (`self.refcount()`)
 pub fn mentions_count<T: ToTokens>(e: &T) -> bool {
-    tokens_mention_ident(e.to_token_stream(), "count")
+    let ts = e.to_token_stream();
+    if tokens_mention_ident(ts.clone(), "count") {
+        return true;
+    }
+    if let Some(acc) = COUNT_ACCESSORS.get() {
+        return acc.iter().any(|a| tokens_mention_ident(ts.clone(), a));
+    }
+    false
 }
 
 /// `.count` as a field access somewhere in the tokens
@@ -306,11 +327,19 @@ impl<'a> Body<'a> {
         });
     }
 
-    fn push_edge(&mut self, targets: Vec<usize>, name: String, line: usize) {
+    fn push_edge(&mut self, targets: Vec<usize>, name: String, line: usize, col: usize) {
         if targets.is_empty() {
             return;
         }
-        self.out.edges.push(Edge { targets, debug: self.debug > 0, name, line });
+        self.out.edges.push(Edge { targets, debug: self.debug > 0, name, line, col });
+    }
+
+    /// an unresolved path call / path value `X::name`: every crate function called `name` may be meant
+    fn push_loose_path(&mut self, name: &str, line: usize, col: usize) {
+        let v: Vec<usize> = (0..self.krate.fns.len()).filter(|&i| self.krate.fns[i].name == name).collect();
+        if !v.is_empty() {
+            self.out.loose_edges.push(Edge { targets: v, debug: self.debug > 0, name: name.to_string(), line, col });
+        }
     }
 
     fn raw_write_site(&mut self, line: usize) {
@@ -660,8 +689,14 @@ impl<'ast, 'a> Visit<'ast> for Body<'a> {
             self.raw_write_site(line);
             raw = true;
         }
+        let col = m.method.span().start().column;
         let targets = self.resolve_method(m);
-        self.push_edge(targets.clone(), name, line);
+        if targets.is_empty() {
+            if let Some(v) = self.krate.methods_by_name.get(&name) {
+                self.out.loose_edges.push(Edge { targets: v.clone(), debug: self.debug > 0, name: name.clone(), line, col });
+            }
+        }
+        self.push_edge(targets.clone(), name, line, col);
         self.visit_expr(&m.receiver);
         if raw {
             self.in_raw_write += 1;
@@ -696,7 +731,11 @@ impl<'ast, 'a> Visit<'ast> for Body<'a> {
             }
             targets = self.resolve_path(p.qself.as_ref(), &p.path);
             let name = p.path.segments.last().map(|s| s.ident.to_string()).unwrap_or_default();
-            self.push_edge(targets.clone(), name, line);
+            let col = p.path.segments.last().map(|s| s.ident.span().start().column).unwrap_or(0);
+            if targets.is_empty() && p.path.segments.len() >= 2 {
+                self.push_loose_path(&name, line, col);
+            }
+            self.push_edge(targets.clone(), name, line, col);
         } else {
             self.visit_expr(&c.func);
         }
@@ -714,14 +753,19 @@ impl<'ast, 'a> Visit<'ast> for Body<'a> {
         if p.path.segments.len() >= 2 || p.qself.is_some() {
             let targets = self.resolve_path(p.qself.as_ref(), &p.path);
             let line = p.path.segments.last().map(|s| s.ident.span().start().line).unwrap_or(0);
+            let col = p.path.segments.last().map(|s| s.ident.span().start().column).unwrap_or(0);
             let name = p.path.segments.last().map(|s| s.ident.to_string()).unwrap_or_default();
-            self.push_edge(targets, name, line);
+            if targets.is_empty() {
+                self.push_loose_path(&name, line, col);
+            }
+            self.push_edge(targets, name, line, col);
         } else if p.path.segments.len() == 1 {
             let id = p.path.segments[0].ident.to_string();
             if self.lookup(&id).is_none() {
                 if let Some(t) = self.krate.free_by_name.get(&id) {
                     let line = p.path.segments[0].ident.span().start().line;
-                    self.push_edge(t.clone(), id, line);
+                    let col = p.path.segments[0].ident.span().start().column;
+                    self.push_edge(t.clone(), id, line, col);
                 }
             }
         }
